@@ -1,20 +1,25 @@
 import PartituraModel.Wire
-import PartituraModel.Model.Merge
+import PartituraModel.Model.MergeCall
 
 open Wire Model.Merge
 
 /-
-requests:   <op> <mode> <shape>
-  op     merge | quarters | rows | ref | dangling | tails | load (= load_score_as_part: merge with mode voice; the mode token is ignored)
-  mode   voice | staff | auto | anything else (rejected like the ValueError of the code)
-  shape  one <tree> | many <n> <tree>*            (a part / group, a list or tuple of parts and groups)
+requests:   <op> <reassign> <shape>
+  op     merge | quarters | rows | ref | dangling | tails | parts | distinct
+         | load (= load_score_as_part; the reassign token is ignored: the model takes what the source passes)
+  reassign   the (percent-encoded) value of `reassign`: voice | staff | auto | anything else (rejected like the
+         ValueError of the code) | `-` (the argument is left out: the default of the signature)
+  shape  one <tree> | many <n> <tree>*            (a part / group / other object, a list or tuple of them)
          | score <one .. | many ..> <nops> <op>*   (the object Score(shape) after a history of edits of its parts)
   op     setitem <i> P.. | assign <n> (P..)* | append P.. | pop <i> | reverse
-  tree   P <pid> <nqd> <qd>* <nelems> <elem>* <ntails> <elem>*  |  G <n> <tree>*
+  tree   P <pid> <name|-> <nqd> <qd>* <nelems> <elem>* <ntails> <elem>*  |  G <n> <tree>*
+         | X  (an object that is neither a Part nor has `.children`: None, a nested list, a Score inside a list ...)
          (tails: the objects that only have an end; their <start> is 0 and not used)
-  elem   <oid> <className> <start> <end|-> <voice|-> <staff|-> <pitch|-> <tiePrev 0|1> <nchain> <oid>* <nrefs> <oid>*
+  elem   <oid> <className> <start> <end|-> <voice|-> <staff|-> <pitch|-> <tiePrev 0|1> <nchain> <oid>* <nrefs> <oid>* <extra>
 A part with other than exactly one quarter duration reaches the model with divs = 0 (rejected unless it
-is the single part that is returned as is).
+is the single part that is returned as is).  Every answer goes through `mergeCall` (Model/MergeCall.lean): the
+validation of `reassign`, the flattening of the argument, the de-duplication of the parts by identity, the checks in
+the order of the code; any exception is answered `err`.
 -/
 
 def parseMode (t : String) : Option Mode :=
@@ -35,17 +40,19 @@ def pElem : P Elem := do
   let tp ← bool
   let ch ← list nat
   let rf ← list nat
+  let ex ← nat
   if Gen.classNames.contains cn then
     pure { oid := oid, cls := classId cn, start := st, stop := en, voice := v, staff := sf,
-           pitch := pi, tiePrev := tp, chain := ch, refs := rf }
+           pitch := pi, tiePrev := tp, chain := ch, refs := rf, extra := ex }
   else P.fail
 
 def pPartBody : P APart := do
   let pid ← nat
+  let nm ← opt str
   let qds ← list nat
   let es ← list pElem
   let tl ← list pElem
-  pure { pid := pid, divs := divsOf qds, elems := es, tails := tl }
+  pure { pid := pid, divs := divsOf qds, elems := es, tails := tl, name := nm }
 
 def pPart : P APart := do
   let t ← tok
@@ -60,6 +67,18 @@ partial def pTree : P Tree := do
   | "G" =>
     let cs ← list pTree
     pure (.group cs)
+  | _ => P.fail
+
+partial def pXTree : P XTree := do
+  let t ← tok
+  match t with
+  | "P" =>
+    let p ← pPartBody
+    pure (.part p)
+  | "G" =>
+    let cs ← list pXTree
+    pure (.group cs)
+  | "X" => pure .other
   | _ => P.fail
 
 def pShape : P Shape := do
@@ -79,22 +98,25 @@ def pOp : P ScoreOp := do
   | "reverse" => pure .reverse
   | _ => P.fail
 
-def pArg : P Arg := do
+def pArg : P XArg := do
   let t ← tok
   match t with
-  | "one" => do let x ← pTree; pure (.plain (.one x))
-  | "many" => do let xs ← list pTree; pure (.plain (.many xs))
+  | "one" => do let x ← pXTree; pure (.plain (.one x))
+  | "many" => do let xs ← list pXTree; pure (.plain (.many xs))
   | "score" => do let s ← pShape; let ops ← list pOp; pure (.score s ops)
   | _ => P.fail
 
+/-- the `reassign` token: `-` = the argument is left out -/
+def parseReassign (t : String) : Option String := if t == "-" then none else some (decodeStr t)
+
 def fmtElem (e : Elem) : String :=
   fmtTuple [fmtNat e.oid, Gen.classNames.getD e.cls "?", fmtNat e.start, fmtOpt fmtNat e.stop,
-            fmtOpt fmtNat e.voice, fmtOpt fmtNat e.staff, fmtList fmtNat e.refs]
+            fmtOpt fmtNat e.voice, fmtOpt fmtNat e.staff, fmtList fmtNat e.refs, fmtNat e.extra]
 
-/-- an object without start: identity, class, end, voice, staff, references -/
+/-- an object without start: identity, class, end, voice, staff, references, other attributes -/
 def fmtTail (e : Elem) : String :=
   fmtTuple [fmtNat e.oid, Gen.classNames.getD e.cls "?", fmtOpt fmtNat e.stop,
-            fmtOpt fmtNat e.voice, fmtOpt fmtNat e.staff, fmtList fmtNat e.refs]
+            fmtOpt fmtNat e.voice, fmtOpt fmtNat e.staff, fmtList fmtNat e.refs, fmtNat e.extra]
 
 def rowLe (a b : Row) : Bool :=
   a.onset < b.onset || (a.onset == b.onset &&
@@ -115,59 +137,62 @@ def resultElems : Result → List Elem
   | .same p => p.elems
   | .merged _ es => es
 
-/-- `tails`: the end-only objects of the merged part (their ends are time points of it) -/
-def fmtResult (tails : List Elem) : Option Result → String
-  | none => "err"
-  | some (.same p) => "same " ++ fmtNat p.pid
-  | some (.merged L es) => fmtTuple [fmtNat L, fmtList fmtElem es, fmtList fmtNat (pointsWith es tails)]
+/-- the time points of the new part are those `Part.add` creates (`newTimeline`, Model/MergeCall.lean) -/
+def fmtResult (m : Mode) (ps : List APart) : Result → String
+  | .same p => "same " ++ fmtNat p.pid
+  | .merged L es => fmtTuple [fmtNat L, fmtList fmtElem es, fmtList (fun tp => fmtNat tp.t) (newTimeline m ps)]
 
 def handle (ts : List String) : String :=
   match ts with
-  | op :: mode :: rest =>
+  | op :: rtok :: rest =>
     match run pArg rest with
     | none => "bad-request"
     | some a =>
-      match argParts a with
-      | none => "bad-history"
-      | some parts =>
       match op with
-      | "ref" => fmtList fmtSound ((refSound parts).mergeSort soundLe)
-      | "parts" => fmtList (fun p => fmtNat p.pid) parts
-      | "tails" =>
-        match parseMode mode with
-        | none => "err"
-        | some m =>
-          match mergeArg m a with
-          | some (.merged _ _) =>
-            fmtList fmtTail ((mergedTails m parts).mergeSort fun a b => a.oid ≤ b.oid)
-          | some (.same _) => "same"
-          | none => "err"
-      | "load" =>
-        match a with
-        | .plain sh => fmtResult (mergedTails .voice parts) (loadScoreAsPart sh)
-        | _ => "bad-request"
+      | "parts" =>
+        -- the list `score.parts` as the caller reads it (before the call; nothing is de-duplicated there)
+        match xargParts a with
+        | .ok parts => fmtList (fun p => fmtNat p.pid) parts
+        | .error _ => "bad-history"
+      | "distinct" =>
+        match xargParts a with
+        | .ok parts => fmtList (fun p => fmtNat p.pid) (distinctParts parts)
+        | .error _ => "err"
+      | "ref" =>
+        match xargParts a with
+        | .ok parts => fmtList fmtSound ((refSound (distinctParts parts)).mergeSort soundLe)
+        | .error _ => "err"
       | _ =>
-        match parseMode mode with
-        | none => "err"
-        | some m =>
-          match mergeArg m a with
-          | none => "err"
-          | some r =>
-            match op with
-            | "merge" => fmtResult (mergedTails m parts) (some r)
-            | "quarters" =>
-              match r with
-              | .same _ => "same"
-              | .merged L es => fmtList (fun _ => fmtNat L) (pointsWith es (mergedTails m parts))
-            | "rows" => fmtList fmtRow ((rows (resultElems r)).mergeSort rowLe)
-            | "dangling" =>
-              match r with
-              | .same _ => "same"
-              | .merged _ es =>
-                fmtList (fun x => fmtTuple [fmtNat x.1, fmtNat x.2])
-                  ((dangling (es ++ mergedTails m parts)).mergeSort fun a b =>
-                    a.1 < b.1 || (a.1 == b.1 && a.2 ≤ b.2))
-            | _ => "bad-request"
+        let reassign := if op == "load" then Gen.C15.loadReassign else parseReassign rtok
+        let res := if op == "load" then
+            (match a with
+             | .score s [] => loadCall s
+             | _ => .error .other)
+          else mergeCall reassign a
+        match res, modeOf (reassign.getD Gen.C15.reassignDefault), xargParts a with
+        | .ok r, some m, .ok parts0 =>
+          let parts := distinctParts parts0
+          match op with
+          | "merge" => fmtResult m parts r
+          | "load" => fmtResult m parts r
+          | "tails" =>
+            match r with
+            | .merged _ _ => fmtList fmtTail ((mergedTails m parts).mergeSort fun a b => a.oid ≤ b.oid)
+            | .same _ => "same"
+          | "quarters" =>
+            match r with
+            | .same _ => "same"
+            | .merged _ _ => fmtList (fun tp => fmtNat tp.quarter) (newTimeline m parts)
+          | "rows" => fmtList fmtRow ((rows (resultElems r)).mergeSort rowLe)
+          | "dangling" =>
+            match r with
+            | .same _ => "same"
+            | .merged _ es =>
+              fmtList (fun x => fmtTuple [fmtNat x.1, fmtNat x.2])
+                ((dangling (es ++ mergedTails m parts)).mergeSort fun a b =>
+                  a.1 < b.1 || (a.1 == b.1 && a.2 ≤ b.2))
+          | _ => "bad-request"
+        | _, _, _ => "err"
   | _ => "bad-request"
 
 def main : IO Unit := mainLoop handle
